@@ -2,6 +2,7 @@ package main
 
 import (
 	"fmt"
+	"strings"
 	"go/token"
 	"go/types"
 	"sort"
@@ -25,6 +26,9 @@ func runC08(c *Ctx) {
 	c08R2(c, m)
 	c08R3(c, m, "R3")
 	c08R4(c)
+	if es := c.P.LangFunc("(*Evaluator).evalStatement"); es != nil {
+		c.shared("R5", "C07/R4", "a call yields the value of the executed return statement: the return arm stores the value in the slot and raises errReturn, only callFunction reads the slot", keyHas("return-"), func(s *Ctx) { c07Return(s, es) })
+	}
 }
 
 func c08R1(c *Ctx, m *frameModel) {
@@ -186,6 +190,18 @@ func c08R2(c *Ctx, m *frameModel) {
 	}
 	if n < 6 {
 		c.undecided("R2", "instance-floor", "", fmt.Sprintf("%d stores into stackFrame.locals found, 6 confirmed by hand", n))
+	}
+	// setGlobal is only used for the interpreter's own $-variables
+	if sg := p.LangFunc("(*Evaluator).setGlobal"); sg != nil {
+		k := 0
+		for _, cs := range p.CallSitesOf(sg) {
+			k++
+			name, isConst := constString(cs.Common().Args[1])
+			c.check(isConst && strings.HasPrefix(name, "$"), "R2", fmt.Sprintf("root-frame-store #%d in %s", k, shortName(cs.Parent())), p.InstrPos(cs), "setGlobal("+name+")", "a name that is not one of the interpreter's $-variables ("+p.Render(cs.Common().Args[1])+") is created in the root frame: a variable first used inside a call or a match body outlives it")
+		}
+		if k == 0 {
+			c.undecided("R2", "root-frame-store", "", "no caller of setGlobal found")
+		}
 	}
 	// getVariable: the creation of unknown names happens only after the walk found nothing
 	gv := p.LangFunc("(*Evaluator).getVariable")
